@@ -77,6 +77,7 @@ fn walk_variant(v: &parquet_variant::Variant, depth: usize, acc: &mut u64) {
         V::List(l) => {
             for i in 0..l.len() { if let Some(e) = l.get(i) { walk_variant(&e, depth + 1, acc) } }
             for e in l.iter() { *acc = acc.wrapping_add(format!("{e:?}").len() as u64) }
+            for e in l.iter_try() { if let Ok(e) = e { *acc = acc.wrapping_add(e.as_int8().is_some() as u64) } }
         }
         V::String(s) => *acc = acc.wrapping_add(s.len() as u64),
         V::ShortString(s) => *acc = acc.wrapping_add(s.as_str().len() as u64),
@@ -196,6 +197,9 @@ pub fn read_input(kind: i64, bytes: &[u8], aux: &[i64]) -> Result<Vec<ArrayRef>,
             let var = parquet_variant::Variant::try_new(m, v).map_err(|_| ())?;
             let mut acc = 0u64;
             walk_variant(&var, 0, &mut acc);
+            // a fully validated variant must support the infallible accessors: Debug and PartialEq walk everything again
+            acc = acc.wrapping_add(format!("{var:?}").len() as u64);
+            acc = acc.wrapping_add((var == var.clone()) as u64);
             for name in var.metadata().iter() { acc = acc.wrapping_add(name.len() as u64) }
             let _ = acc;
             Ok(vec![])
